@@ -8,15 +8,15 @@ Twin real StorageServers with the same node id on tmpfs, same virtual second:
      (Foolscap path; BucketWriter/Reader references are LocalRefs to FoolscapBucketWriter/Reader)
 The SAME IStorageServer-level operation is issued on both after every history.
 
-Part 1 (hbfs BFS, immutable): storage index A, shares {0,1}, size 4.  Alphabet: allocate_buckets
-  (3 variants of share set / lease secrets), write of EVERY sub-range of share 0 with the share's
-  bytes, 4 conflicting writes, 2 writes past the end, 3 writes on share 1, a write through a dead
+Part 1 (BFS, immutable): storage index A, shares {0,1}, size 4.  Alphabet: allocate_buckets
+  (2 variants of share set / lease secrets quick, 3 thorough), write of EVERY sub-range of share 0 with the share's
+  bytes, 4 conflicting writes, 2 writes past the end, 1 (quick) / 3 (thorough) writes on share 1, a write through a dead
   handle, abort, add_lease (2 secrets, unknown index), advise_corrupt_share, and `sweep`: every
   read (offset 0..size+2, length 0..size+3) of every visible share.  A write that completes the
   share (by the reference bitmap) is followed by close() on both paths (the HTTP protocol
   completes on the last byte, Foolscap on close - documented difference, so "write last byte +
   close" is one step).  Depth 4 quick / 5 thorough.
-Part 2 (hbfs BFS, mutable): slot M, shares {0,1}: 12 read-test-write requests (create, overwrite,
+Part 2 (BFS, mutable): slot M, shares {0,1}: 12 read-test-write requests (create, overwrite,
   gap write, truncate, delete, passing/failing test vectors, two shares, two write vectors +
   new_length, wrong write enabler, second lease secret, pure read), add_lease x2,
   advise_corrupt_share, slot_readv naming a missing share, and `sweep`: slot_readv of all shares
@@ -36,7 +36,7 @@ import hashlib
 import itertools
 import os
 
-from .. import boot, common, hbfs
+from .. import boot, common
 from .. import lib_http as L
 
 from foolscap.api import RemoteException
@@ -171,8 +171,14 @@ def show(r):
 
 
 # ------------------------------------------------------------------ immutable part
+TIER = "quick"     # set by run() before the workers are forked; only selects the alphabet offered
+
+
 def imm_ops(size, handles):
-    ops = [["alloc", [0], 1], ["alloc", [0, 1], 1], ["alloc", [0, 1], 2]]
+    if TIER == "quick":
+        ops = [["alloc", [0], 1], ["alloc", [0, 1], 2]]
+    else:
+        ops = [["alloc", [0], 1], ["alloc", [0, 1], 1], ["alloc", [0, 1], 2]]
     for sh in (0, 1):
         if sh in handles:
             if handles[sh][2]:
@@ -185,7 +191,7 @@ def imm_ops(size, handles):
                     ops.append(["write", 0, size - 2, 3, "d"])
                     ops.append(["write", 0, size, 1, "d"])
                 else:
-                    for (off, ln) in ((0, size), (0, 2), (2, size - 2)):
+                    for (off, ln) in (((0, size),) if TIER == "quick" else ((0, size), (0, 2), (2, size - 2))):
                         ops.append(["write", 1, off, ln, "d"])
             else:
                 ops.append(["write", sh, 0, size, "d"])
@@ -546,54 +552,120 @@ def version_check(seed):
 
 
 # ------------------------------------------------------------------ entry points
+def replay_tagged(hist, seed):
+    """hist[0] = ["domain", "imm"|"mut"|"plan"].  -> (canon, violations, ops, reads compared)"""
+    dom, rest = hist[0][1], hist[1:]
+    if dom == "imm":
+        c, v, ops = imm_replay(rest, seed)
+        return "imm:" + c, v, ops
+    if dom == "mut":
+        c, v, ops = mut_replay(rest, seed)
+        return "mut:" + c, v, ops
+    if not rest:
+        return "plan:root", [], [["plan", sz, p] for sz in (4, 6) for p in all_plans(sz)]
+    _, sz, plan = rest[0]
+    v, n = plan_check({"size": sz, "plan": plan}, seed)
+    return "plan:%d:%r" % (sz, plan), v, []
+
+
 def replay(case):
     seed = case.get("seed")
+    seed = boot.SEED if seed is None else seed
     if case.get("kind") == "plan":
         return plan_check(case, seed)[0]
     if case.get("kind") == "version":
-        return version_check(boot.SEED if seed is None else seed)
+        return version_check(seed)
     hist = case["history"]
+    if hist and hist[0][0] == "domain":
+        return replay_tagged(hist, seed)[1]
     names = set(op[0] for op in hist)
     if names & {"rtw", "readv-missing", "readv0"} or any(op[0] in ("add_lease", "advise") and op[1] in ("M", "mutable") for op in hist):
-        return mut_replay(hist)[1]
-    return imm_replay(hist)[1]
+        return mut_replay(hist, seed)[1]
+    return imm_replay(hist, seed)[1]
+
+
+def _level(chunk, seed):
+    res = common.Result()
+    out = []
+    for hist in chunk:
+        canon, viols, ops = replay_tagged(hist, seed)
+        dom = hist[0][1]
+        res.count("transitions:" + dom)
+        for sig, msg in viols:
+            res.violation(sig, {"history": hist, "seed": seed}, msg)
+        out.append((hist, canon, bool(viols), ops))
+    res.notes["out"] = out
+    return res
+
+
+def explore(depth, seed, max_states=40000):
+    """hbfs.explore's algorithm (level-synchronous BFS over histories, dedup on canon, states with
+    a violation not expanded, shortest counterexample first) with the three domains advanced in
+    the SAME level so that one worker pool per level serves all of them (a pool costs seconds of
+    copy-on-write warm-up per worker here), and with per-domain counters."""
+    total = common.Result()
+    seen = {}
+    frontier = [[["domain", d]] for d in ("imm", "mut", "plan")]
+    level = 0
+    capped = False
+    while frontier:
+        part = common.pmap(_level, frontier, (seed,))
+        outs = part.notes.pop("out", [])
+        total.merge(part)
+        nxt = []
+        for hist, canon, bad, ops in outs:
+            if canon in seen:
+                continue
+            seen[canon] = hist
+            dom = hist[0][1]
+            total.count("states:" + dom)
+            if len(seen) % 211 == 1 and dom != "plan":
+                total.sample({"history": hist})
+            if bad or level >= depth:
+                continue
+            if len(seen) > max_states:
+                capped = True
+                continue
+            for op in ops:
+                nxt.append(hist + [op])
+        frontier = nxt
+        level += 1
+    total.notes["capped"] = capped
+    return total
 
 
 def run(tier, seed):
+    global TIER
+    TIER = tier
     depth = 4 if tier == "quick" else 5
     if os.environ.get("VERIF_MAXDEPTH"):      # development / detection demos only: shallower search
         depth = min(depth, int(os.environ["VERIF_MAXDEPTH"]))
     total = common.Result()
     for sig, msg in version_check(seed):
         total.violation(sig, {"kind": "version"}, msg)
-    imm = hbfs.explore(imm_replay, depth, max_states=20000)
-    mut = hbfs.explore(mut_replay, depth, max_states=20000)
-    plans = [{"size": s, "plan": p} for s in (4, 6) for p in all_plans(s)]
-    pl = common.pmap(_plan_chunk, plans, (seed,))
-    st_i, st_m = imm.counts.get("states", 0), mut.counts.get("states", 0)
-    tr_i, tr_m = imm.counts.get("transitions", 0), mut.counts.get("transitions", 0)
-    total.merge(imm)
-    total.merge(mut)
-    total.merge(pl)
-    tr = tr_i + tr_m + pl.counts.get("plan_transitions", 0)
+    total.merge(explore(depth, seed))
+    c = total.counts
+    nplans = c.get("transitions:plan", 0) - 1
+    plan_steps = sum(len(p) + 1 for sz in (4, 6) for p in all_plans(sz)) if nplans > 0 else 0
+    tr = c.get("transitions:imm", 0) + c.get("transitions:mut", 0) + plan_steps
     cov = {
-        "states": st_i + st_m + pl.counts.get("plans", 0),
+        "states": c.get("states:imm", 0) + c.get("states:mut", 0) + max(0, c.get("states:plan", 0) - 1),
         "transitions": tr,
         "traces_validated_against_impl": tr,
-        "immutable_states": st_i, "immutable_transitions": tr_i,
-        "mutable_states": st_m, "mutable_transitions": tr_m,
-        "upload_plans": pl.counts.get("plans", 0),
-        "upload_plan_reads_compared": pl.counts.get("plan_reads", 0),
+        "immutable_states": c.get("states:imm", 0), "immutable_transitions": c.get("transitions:imm", 0),
+        "mutable_states": c.get("states:mut", 0), "mutable_transitions": c.get("transitions:mut", 0),
+        "upload_plans": nplans, "upload_plan_steps": plan_steps,
+        "reads_per_plan_sweep": {"size4": len(all_pairs(4)), "size6": len(all_pairs(6))},
         "bfs_depth": depth,
-        "state_cap_hit": bool(imm.notes.get("capped")) or bool(mut.notes.get("capped")),
-        "rule": "twin real servers (HTTP path / Foolscap path); BFS to depth %d over the immutable alphabet (allocate x3, every sub-range write of a 4-byte share, conflicting and overflowing writes, dead-handle write, abort, add_lease, advise, full read sweep) and over the mutable alphabet (12 read-test-write requests, add_lease, advise, readv of a missing share, full slot_readv sweep); every transition runs both real paths and compares results, directory digests and BucketWriter tables; plus every composition of a 4- and a 6-byte share into <= 3 chunks in every order (%d plans) with every (offset <= size+2, length <= size+3) read" % (depth, pl.counts.get("plans", 0)),
+        "state_cap_hit": bool(total.notes.get("capped")),
+        "rule": "twin real servers (HTTP path / Foolscap path); BFS to depth %d over the immutable alphabet (allocate x2 quick / x3 thorough, every sub-range write of a 4-byte share, conflicting and overflowing writes, dead-handle write, abort, add_lease, advise, zero-length read, full read sweep) and over the mutable alphabet (12 read-test-write requests, add_lease, advise, readv of a missing share, zero-length readv, full slot_readv sweep); every transition runs both real paths and compares results, directory digests and BucketWriter tables; plus every composition of a 4- and a 6-byte share into <= 3 chunks in every order (%d plans; each chunk is a compared step, a plan whose share cannot be read back completely is a violation) with every (offset <= size+2, 1 <= length <= size+3) read" % (depth, nplans),
     }
     return total, cov
 
 
 MANIFEST = {
     "engine": "H",
-    "technique": "differential explicit-state search: the same IStorageServer operation histories are executed on twin real storage servers, one through the HTTP client/server stack (StubTreq, no network) and one through the Foolscap-side wrappers called directly, with breadth-first enumeration of histories (hbfs) and exhaustive enumeration of chunked-upload plans",
+    "technique": "differential explicit-state search: the same IStorageServer operation histories are executed on twin real storage servers, one through the HTTP client/server stack (StubTreq, no network) and one through the Foolscap-side wrappers called directly, with breadth-first enumeration of histories (hbfs's algorithm, one worker pool per level for all domains) and exhaustive enumeration of chunked-upload plans",
     "text": "Every history up to depth 4 (thorough 5) over an immutable alphabet (allocate, every sub-range write of a 4-byte share, conflicting/overflowing/dead-handle writes, abort, add_lease, advise, zero-length read, full read sweep) and a mutable alphabet (12 read-test-write requests, add_lease, advise, reads of missing shares and zero-length ranges, full slot_readv sweep) is run on both paths; after every step the client-visible results (exception types mapped through a class table), the byte digests of the two storage directories and the in-progress upload tables must be equal. In addition every way of cutting a 4- and a 6-byte share into at most 3 chunks, in every order, is uploaded on both paths and every read with offset <= size+2 is compared.",
     "note": "Trusted: the local IRemoteReference stand-in (no foolscap serialisation or schema checks) and the reference bitmap that decides when close() is issued. By-design differences accepted: value returned by close(), abort through a handle of a finished/aborted upload (HTTP 405 vs silent), exception types, incomplete-share close (not issued). Known disagreements on the unchanged tree have their own signatures: read-differs:zero-length, slot_readv-zero-length:error/ok, slot_readv-missing-share:error/ok.",
 }
